@@ -330,7 +330,7 @@ func genC12(t *rapid.T) *Bundle {
 	}
 	g := &c12Gen{t: t, root: root}
 	T, U := root+"t", root+"u"
-	shape := g.pick("shape", "plain", "plain", "where", "order_total", "order_ties", "limit", "distinct", "group", "whole_agg", "join", "pjoin", "derived", "cte", "cte_direct", "dual", "union", "slice", "alias", "star", "nested_from", "group_star", "in_subquery", "having", "cte_col", "cte_twice", "offset_window", "join_into", "join_into", "join_unaliased", "distinct_async", "grid", "grid_cte", "grid_distinct", "join_derived_side", "cte_dual_star")
+	shape := g.pick("shape", "plain", "plain", "where", "order_total", "order_ties", "limit", "distinct", "group", "whole_agg", "join", "pjoin", "derived", "cte", "cte_direct", "dual", "union", "slice", "alias", "star", "nested_from", "group_star", "in_subquery", "having", "cte_col", "cte_twice", "offset_window", "join_into", "join_into", "join_unaliased", "distinct_async", "grid", "grid_cte", "grid_distinct", "join_derived_side", "cte_dual_star", "join_limit", "nonfinite", "async_arg")
 	seq := true
 	var q string
 	switch shape {
@@ -396,7 +396,7 @@ func genC12(t *rapid.T) *Bundle {
 	case "cte_direct":
 		q = fmt.Sprintf("WITH c AS (SELECT id, n FROM %s) SELECT v FROM `c.n`", T)
 	case "cte_col":
-		q = fmt.Sprintf("WITH c AS (SELECT %s FROM %s) SELECT %s FROM dual", g.items("", true), T, g.pick("cte_col_sel", "c", "c AS cc, "+root+"meta", "*", "c, *"))
+		q = fmt.Sprintf("WITH c AS (SELECT %s FROM %s) SELECT %s FROM dual", g.items("", true), T, g.pick("cte_col_sel", "c", "c AS cc, "+root+"meta", "*", "c, *", "`{c}` AS p", "`{c, "+strings.TrimSuffix(root, ".")+"}` AS p"))
 	case "cte_twice":
 		q = fmt.Sprintf("WITH c AS (SELECT id, a FROM %s) SELECT id, (SELECT a FROM `<-c` WHERE a >= 10) AS again FROM c", T)
 	case "join_derived_side":
@@ -406,6 +406,18 @@ func genC12(t *rapid.T) *Bundle {
 			q = fmt.Sprintf("SELECT * FROM %s y %s (SELECT id, %s FROM %s) x ON x.id = y.id", U, g.pick("jds_jt2", "JOIN", "RIGHT JOIN"), g.items("", true), T)
 		}
 		seq = false
+	case "join_limit":
+		// LIMIT over a join without ORDER BY: which rows make the window depends on the order the join emits them in
+		q = fmt.Sprintf("SELECT * FROM %s x %s %s y ON x.id %s y.id LIMIT %d", T, g.pick("jl_jt", "JOIN", "LEFT JOIN", "PARALLEL JOIN", "STRAIGHT_JOIN"), U, g.pick("jl_op", "<=", "=", "!="), rapid.IntRange(1, 2).Draw(t, "jl_lim"))
+		seq = false
+	case "nonfinite":
+		// arithmetic that leaves the finite numbers
+		q = fmt.Sprintf("SELECT id, %s AS c0 FROM %s", g.pick("nonfinite_form", "a / 0", "a % 0", "1e308 * 10", "-1e308 * 10", "a / (id - 1)", "CHANGETYPE('NaN', 'double')", "CHANGETYPE('-Inf', 'double')"), T)
+	case "async_arg":
+		// the pending slot of an ASYNC call handed to another function as an argument
+		g.site++
+		g.sites = append(g.sites, g.site)
+		q = fmt.Sprintf("SELECT id, %s AS c0 FROM %s", fmt.Sprintf(g.pick("async_arg_form", "CONCAT('x', ASYNC.fx(%d, a))", "ARRAY(ASYNC.fx(%d, a), 1)", "HASH(ASYNC.fx(%d, a), 'md5')"), g.site), T)
 	case "cte_dual_star":
 		// `*` over dual is the enclosing document: a CTE evaluated on the way must not become a column later on
 		q = fmt.Sprintf("WITH c AS (SELECT id, a FROM %s) SELECT *, (SELECT a FROM `<-c` WHERE id = 1) AS y FROM dual", T)
